@@ -117,6 +117,10 @@ func effectClasses1(p *Prog, fn *ssa.Function, unclassified *[]*ssa.Function) ma
 				out["create rows"] = true
 			case capable[sc] && rt == "World":
 				out["clean up dead-target tables"] = true
+				// a World helper that cleans up among other things (a loop body moved into a helper): also look inside
+				if unclassified != nil && sc.Object() != nil && !sc.Object().Exported() && sc.Blocks != nil {
+					*unclassified = append(*unclassified, sc)
+				}
 			case grow[sc] && rt == "World":
 				out["grow table"] = true
 				// a World helper that allocates rows itself (not through the creating primitives): also look inside
@@ -220,6 +224,23 @@ func guardClasses(p *Prog, fn *ssa.Function, g *guardInfo) map[string]bool {
 		panicsOnFalse := p.panicOnly(b.Succs[1-trueSucc])
 		if !panicsOnTrue && !panicsOnFalse {
 			continue
+		}
+		// a short-circuit conjunction used as a value (`case a && b: panic`): in the if-form the block that branches to the
+		// panic is the one testing the last conjunct, so the guard is classified by that conjunct here as well
+		if ph, isPhi := atom.(*ssa.Phi); isPhi {
+			var nonConst []ssa.Value
+			for _, e := range ph.Edges {
+				if _, isC := constBool(e); !isC {
+					nonConst = append(nonConst, e)
+				}
+			}
+			if len(nonConst) == 1 {
+				a2, neg := condAtom(nonConst[0])
+				atom = a2
+				if neg {
+					panicsOnTrue, panicsOnFalse = panicsOnFalse, panicsOnTrue
+				}
+			}
 		}
 		cls := "other: " + apath(atom)
 		if c := callOf(atom); c != nil && c.Common().StaticCallee() != nil {
